@@ -269,6 +269,10 @@ def run(repo: Repo, rep: Report, tier: str) -> None:
                 if isinstance(c, ast.Call) and (dotted(c.func) or "").endswith(nm):
                     q = qualname(c).split(".")[-1]
                     rep.check(q in ("bind", "unbind"), "binding", f"{short}.{qualname(c)}", enclosing(c, (ast.stmt,)), f"{nm} is called outside bind()/unbind()", mod=m, node=c)
+    # ---- state is per instance -------------------------------------------------------------------
+    from ..lints import per_instance_state
+    rep.rule("per-instance-state", "mutable state of the protocol objects is created per instance, never as a class attribute")
+    per_instance_state(repo, rep, "per-instance-state", {"association": ("Association", "ServiceUser"), "ae": ("ApplicationEntity",), "transport": ("AssociationServer", "ThreadedAssociationServer", "RequestHandler"), "acse": ("ACSE",)})
 
 
 def _enclosing_ifs(node, fn):
